@@ -253,7 +253,8 @@ func (d *l3Driver) nextBlock() {
 	if d.timeJump {
 		now := time.Now().UTC()
 		d.cl.Time = now.Add(-5 * time.Second)
-		d.s.C.Time = now.Add(-5 * time.Second)
+		// the block being closed keeps its header time; the jump shows in the header of the next one
+		d.s.C.NextTime, d.s.C.NextTimeSet = now, true
 		d.timeJump = false
 	}
 	adv := NewAction("advance", 0)
